@@ -90,17 +90,17 @@ theorem path_stable_graft {r S S' : HTree} {nd : Nat} {path : Path} (hndr : (han
     intro hm
     have hxS' : x ∈ handles S' := by
       cases S' with
-      | node a b c => simp only [handles_node, List.mem_cons]; exact Or.inr hm
+      | node a b c => simp only [fi_handles_node, List.mem_cons]; exact Or.inr hm
     have hxS : x ∈ handles S := hsub x hxS'
     cases S with
     | node a b c =>
-      simp only [handles_node, List.mem_cons] at hxS
+      simp only [fi_handles_node, List.mem_cons] at hxS
       rcases hxS with e | e
       · simp only [HTree.handle] at hSh
         cases S' with
         | node a' b' c' =>
           simp only [HTree.handle] at hS'h
-          simp only [handles_node, List.nodup_cons] at hnd'
+          simp only [fi_handles_node, List.nodup_cons] at hnd'
           simp only [HTree.kids] at hm
           exact hnd'.1 (by rw [hS'h, ← hSh, ← e]; exact hm)
       · exact h1 e
